@@ -489,7 +489,9 @@ class SequenceBasedRoutingProblem(RoutingProblem):
                     arc = (current_node, 0)
                     if not self.check_arc(arc):
                         node_nm = self.node_names[current_node]
-                        self.add_arc(node_nm, depot_nm, 0, 0)
+                        added = self.add_arc(node_nm, depot_nm, 0, 0)
+                        if not added:
+                            raise ValueError(f"Construction heuristic failed: no arc from {node_nm} back to depot")
                         logger.info("Adding arc %s -- %s", node_nm, depot_nm)
                         self.reset_build_flags()
                     for sii in range(si, self.max_sequence_length-1):
@@ -500,7 +502,9 @@ class SequenceBasedRoutingProblem(RoutingProblem):
             arc = (current_node, 0)
             if current_node != 0 and not self.check_arc(arc):
                 node_nm = self.node_names[current_node]
-                self.add_arc(node_nm, depot_nm, 0, 0)
+                added = self.add_arc(node_nm, depot_nm, 0, 0)
+                if not added:
+                    raise ValueError(f"Construction heuristic failed: no arc from {node_nm} back to depot")
                 logger.info("Adding arc %s -- %s", node_nm, depot_nm)
                 self.reset_build_flags()
         # end vehicle loop
@@ -523,12 +527,16 @@ class SequenceBasedRoutingProblem(RoutingProblem):
             node_nm = self.node_names[ni]
             # check and add entry arc
             if not self.check_arc((0, ni)):
-                self.add_arc(depot_nm, node_nm, 0, high_cost)
+                added = self.add_arc(depot_nm, node_nm, 0, high_cost)
+                if not added:
+                    raise ValueError(f"Construction heuristic failed: no arc from depot to {node_nm}")
                 logger.info("Adding arc %s -- %s", depot_nm, node_nm)
             used_sequences.append((vi, 1, ni))
             # check and add exit arc
             if not self.check_arc((ni, 0)):
-                self.add_arc(node_nm, depot_nm, 0, high_cost)
+                added = self.add_arc(node_nm, depot_nm, 0, high_cost)
+                if not added:
+                    raise ValueError(f"Construction heuristic failed: no arc from {node_nm} back to depot")
                 logger.info("Adding arc %s-- %s", node_nm, depot_nm)
             # finish out sequence at depot
             for si in range(2, self.max_sequence_length-1):
